@@ -30,9 +30,9 @@ def tagged (i : Nat) (xs : List String) : String := if xs.isEmpty then s!"<{i}>"
 mutual
 def specOf : Ty → Init → Res String
   | t, .raw v => specSized t v
-  | .vec _ _, .vecEmpty => .ok "V[]"
-  | .vec et _, .vecArr xs => (specElems et xs).bind fun es => .ok ("V[" ++ joinSp es ++ "]")
-  | .vec et _, .vecIter xs => (specElems et xs).bind fun es => .ok ("V[" ++ joinSp es ++ "]")
+  | .vec et _, .vecEmpty => .ok (if et.dict.ssize = 0 then "V[*0]" else "V[]")
+  | .vec et _, .vecArr xs => if et.dict.ssize = 0 then .ok s!"V[*{xs.length}]" else (specElems et xs).bind fun es => .ok ("V[" ++ joinSp es ++ "]")
+  | .vec et _, .vecIter xs => if et.dict.ssize = 0 then .ok s!"V[*{xs.length}]" else (specElems et xs).bind fun es => .ok ("V[" ++ joinSp es ++ "]")
   | .str _, .strEmpty => .ok "S:"
   | .str _, .strFrom v => .ok ("S:" ++ hexOf v)
   | .flex _ _, .flexEmpty => .ok "F[]"
